@@ -364,15 +364,18 @@ SPECS["C12"] = {
 # ---------------------------------------------------------------------------------------------- C19
 def plan_c19(tier, seed):
     if tier == "quick":
-        return checks("main", 6, 6000) + shards("main", "dw8", 2) + shards("main", "dw64", 1)
+        return (checks("main", 6, 6000) + shards("main", "dw8", 2) + shards("main", "dw64", 1) + shards("plain", "dwq64-4", 6)
+                + shards("plain", "dwq32-2", 1) + shards("plain", "dwq16-2", 1))
     return (checks("main", 10, 120000) + checks("nohook_avx2", 2, 60000) + shards("main", "dw8", 2) + shards("main", "dw16", 1)
-            + shards("main", "dw32", 1) + shards("main", "dw64", 1))
+            + shards("main", "dw32", 1) + shards("main", "dw64", 1) + shards("plain", "dwq64-400", 12, timeout=7000)
+            + shards("plain", "dwq32-200", 2, timeout=7000) + shards("plain", "dwq16-100", 2, timeout=7000))
 
 
 SPECS["C19"] = {
     "builds": {
         "main": Build("main", "harness/c19_bigint.cpp", extra=["-fsanitize=integer-divide-by-zero"]),
         "nohook_avx2": Build("nohook_avx2", "harness/c19_bigint.cpp", hook=False, simd="avx2"),
+        "plain": Build("plain", "harness/c19_bigint.cpp", san="plain", hook=False),
     },
     "default_build": "main",
     "plan": plan_c19,
@@ -383,7 +386,9 @@ SPECS["C19"] = {
              "conversions, Clear; operands biased to 0, 1, all-ones, single bits, word boundaries, top-bit divisors; only operations whose exact result "
              "fits are generated; value, remainder, bit index and predicates compared with reference naturals after every step; "
              "(b) DoubleSize<u8>::Multiply (all 2^16 pairs) and ::Divide (all 8.36M triples with high < divisor) exhaustively; 16/32/64-bit helpers on "
-             "boundary operands against unsigned __int128; non-trivial = program with >= 3 operations and a multi-word value, every helper tuple; distinct by entropy"),
+             "boundary operands against unsigned __int128; (c) 16/32/64-bit Divide on 28 M (quick) / 5.4 G (thorough) cases built backwards from the answer "
+             "(dividend = q * divisor + r, quotient digits at the boundaries where the schoolbook estimate needs its one or two corrections, remainder at "
+             "either end of [0, divisor)); non-trivial = program with >= 3 operations and a multi-word value, every helper tuple; distinct by entropy"),
     "engine": "rapidcheck + complete enumeration",
     "technique": "model-based property testing (rapidcheck) against reference arbitrary-precision naturals, plus complete enumeration of the 8-bit double-word helper",
     "level_text": ("BigInt histories are compared after every operation with exact reference arithmetic written in the harness (self-checked against "
